@@ -58,7 +58,7 @@ PROPS = {
                 cfgs=is_stack, release=False, leak_free=True),
     "C12": dict(families=["views", "placement"], keys=["out", "ret", "len", "snap"], cfgs=any_cfg, release=False, leak_free=True),
     "C14": dict(families=["iter", "iter_clone", "iter_nth", "range_nth", "cursor_max"], keys=["out", "ret"], cfgs=any_cfg, release=False, leak_free=True),
-    "C18": dict(families=["capacity", "elem", "range", "clone", "parts", "random"], keys=["out", "cap", "ev_alloc"],
+    "C18": dict(families=["capacity", "elem", "range", "clone", "parts", "random", "dropfuse", "clonefuse"], keys=["out", "cap", "ev_alloc"],
                 cfgs=is_heap, release=True, leak_free=True),
     # the harness is linked against any_vec built with default features disabled; the same cases also run
     # on the default build and the two implementations' full trace lines must be identical
